@@ -207,6 +207,8 @@ func AppendFloat(b []byte, f float64, prec int) []byte {
 		i++
 	}
 
+	first := i // position of the first digit
+
 	// big conversion loop, start at the end and move to the front
 	// initially print trailing zeros and remove them later on
 	// for example if the first non-zero digit is three positions in front of the dot, it will overwrite the zeros with a positive exponent
@@ -270,9 +272,15 @@ func AppendFloat(b []byte, f float64, prec int) []byte {
 			b[i] = '0'
 			i++
 		} else if exp == 2 {
-			b[i] = '0'
-			b[i+1] = '0'
-			i += 2
+			if first+3 <= i && b[i-2] == '.' {
+				// mantissa has two digits: 1.2 with exponent 2 is 120
+				b[i-2] = b[i-1]
+				b[i-1] = '0'
+			} else {
+				b[i] = '0'
+				b[i+1] = '0'
+				i += 2
+			}
 		} else {
 			b[i] = 'e'
 			i++
